@@ -103,6 +103,10 @@ class C14(Prop):
                                                       rng.choice([1, 2, 3])) for _ in range(rng.choice([0, 2, 4, 6])))
             yield Case('reshape', ('recast', rng.choice([None, 'k']), 'variable', 'value', 1000, rng.choice([None, 'M']),
                                    rng.choice([None, 2]), m))
+            # variable names that are numbers: recast lists them in their natural order (9, 10, 100), not as text
+            mn = (('k', 'variable', 'value'),) + tuple((rng.choice([0, 1, 'x']), rng.choice([9, 10, 100, 2.5]), rng.choice([1, 2, 3]))
+                                                      for _ in range(rng.choice([2, 4, 6])))
+            yield Case('reshape', ('recast', 'k', 'variable', 'value', 1000, None, None, mn))
             # pivot
             p = (('r', 'c', 'v'),) + tuple((rng.choice(['r1', 'r2', 'r3']), rng.choice(['c1', 'c2']), rng.choice([1, 2, 3]))
                                            for _ in range(rng.choice([0, 1, 3, 6])))
